@@ -867,7 +867,7 @@ impl Engine for C15 {
     }
     fn runs(&self, tier: Tier) -> u64 {
         match tier {
-            Tier::Quick => 20_000,
+            Tier::Quick => 40_000,
             Tier::Thorough => 2_000_000,
         }
     }
